@@ -73,6 +73,9 @@ type Case struct {
 	Opts  int    `json:"opts"`
 	Regs  []Reg  `json:"regs"`
 	Parts []Part `json:"parts"`
+	// an earlier document minified on the same registry before the judged one (its own result is not judged)
+	WarmHost  string `json:"warmhost"`
+	WarmParts []Part `json:"warmparts"`
 }
 
 type KV [2]lib.Bytes
@@ -139,6 +142,7 @@ type Event struct {
 	ID       int       `json:"id"`
 	Host     string    `json:"host"`
 	Opts     int       `json:"opts"`
+	Warm     lib.Bytes `json:"warm"` // the earlier document on the same registry ("" if none)
 	Regs     []RegStep `json:"regs"`
 	Slots    []Slot    `json:"slots"`
 	Input    lib.Bytes `json:"input"`
@@ -229,10 +233,34 @@ func payloadOf(r io.Reader) ([]byte, io.Reader) {
 	return b, bytes.NewReader(b)
 }
 
+// sharedMinifier returns ONE minifier value per registration, as in m.Add("image/svg+xml", &svg.Minifier{}):
+// every nested call on the registry goes to the same value (options that a call derives from its params must
+// not stick to it).  The direct call of the commutation law uses the package-level function, i.e. a fresh value.
+func sharedMinifier(name string) minify.Minifier {
+	switch name {
+	case "css":
+		return &css.Minifier{}
+	case "js":
+		return &js.Minifier{}
+	case "html":
+		return &mhtml.Minifier{}
+	case "svg":
+		return &svg.Minifier{}
+	case "json":
+		return &mjson.Minifier{}
+	case "xml":
+		return &mxml.Minifier{}
+	}
+	lib.Fatal("unknown real minifier %q", name)
+	return nil
+}
+
 func (rec *recorder) minifier(sid int, reg Reg) minify.MinifierFunc {
 	var real realFn
+	var fresh realFn
 	if reg.Beh == "real" {
-		real = realMinifier(reg.Real)
+		real = sharedMinifier(reg.Real).Minify
+		fresh = realMinifier(reg.Real)
 	}
 	return func(m *minify.M, w io.Writer, r io.Reader, params map[string]string) error {
 		payload, rd := payloadOf(r)
@@ -256,10 +284,10 @@ func (rec *recorder) minifier(sid int, reg Reg) minify.MinifierFunc {
 		c.Out = append(lib.Bytes{}, buf.Bytes()...)
 		c.Fail = err != nil
 		if real != nil {
-			// the same minifier called directly on a private copy of the payload with the same params
+			// its own minifier (a fresh value) called directly on a private copy of the payload with the same params
 			rec.silent = true
 			var dbuf bytes.Buffer
-			derr := real(m, &dbuf, bytes.NewReader(append([]byte{}, payload...)), params)
+			derr := fresh(m, &dbuf, bytes.NewReader(append([]byte{}, payload...)), params)
 			rec.silent = false
 			c.HasDirect, c.Direct, c.DirectFail = true, append(lib.Bytes{}, dbuf.Bytes()...), derr != nil
 		}
@@ -326,10 +354,12 @@ const hexd = "0123456789ABCDEF"
 
 // percent-encoding of a data URI payload by the test renderer: everything outside a conservative
 // unreserved set is escaped (independent of the table in the code under test)
-func pctEncode(b []byte) []byte {
+func pctEncode(b []byte, plus bool) []byte {
 	var out []byte
 	for _, c := range b {
-		if c >= 'a' && c <= 'z' || c >= 'A' && c <= 'Z' || c >= '0' && c <= '9' || strings.IndexByte("-_.~:/{}=", c) >= 0 {
+		if plus && c == '+' { // RFC 2397 data is URL-escaped, not form-encoded: a literal + is a plus sign
+			out = append(out, c)
+		} else if c >= 'a' && c <= 'z' || c >= 'A' && c <= 'Z' || c >= '0' && c <= '9' || strings.IndexByte("-_.~:/{}=", c) >= 0 {
 			out = append(out, c)
 		} else {
 			out = append(out, '%', hexd[c>>4], hexd[c&15])
@@ -345,7 +375,7 @@ func dataURI(p Part) []byte {
 		out = append(out, base64.StdEncoding.EncodeToString(p.Payload)...)
 	} else {
 		out = append(out, ',')
-		out = append(out, pctEncode(p.Payload)...)
+		out = append(out, pctEncode(p.Payload, p.Enc == "pctplus")...)
 	}
 	return out
 }
@@ -798,6 +828,19 @@ func xmlUnescape(b []byte) lib.Bytes {
 	return out
 }
 
+func runHost(m *minify.M, host string, opts int, w io.Writer, rd io.Reader) error {
+	switch host {
+	case "html":
+		return (&mhtml.Minifier{}).Minify(m, w, rd, nil)
+	case "svg":
+		return (&svg.Minifier{}).Minify(m, w, rd, nil)
+	case "css":
+		return (&css.Minifier{}).Minify(m, w, rd, nil)
+	}
+	lib.Fatal("bad host %q", host)
+	return nil
+}
+
 // ---- one case -------------------------------------------------------------------------------
 
 func runCase(c Case) Event {
@@ -825,6 +868,14 @@ func runCase(c Case) Event {
 		default:
 			lib.Fatal("case %d: bad registration kind %q", c.ID, r.K)
 		}
+	}
+	ev.Warm = lib.Bytes{}
+	if c.WarmHost != "" {
+		winput, _ := render(Case{ID: c.ID, Host: c.WarmHost, Parts: c.WarmParts})
+		ev.Warm = winput
+		rec.silent = true
+		lib.Guard(func() { runHost(m, c.WarmHost, 0, io.Discard, bytes.NewReader(append([]byte{}, winput...))) })
+		rec.silent = false
 	}
 	var out bytes.Buffer
 	var err error
